@@ -124,7 +124,16 @@ var _ Storage = LeveldbDiskStorage{}
 
 func newDiskDb(path string, nuke bool) *leveldb.DB {
 	if nuke {
-		_ = os.RemoveAll(path)
+		// Move the directory out of the way in one step before deleting it: if the process dies while the
+		// files are being removed, a half-deleted database (which leveldb refuses to open) is not found
+		// under the table's name at the next start.
+		trash := path + ".deleted"
+		_ = os.RemoveAll(trash)
+		if err := os.Rename(path, trash); err == nil {
+			_ = os.RemoveAll(trash)
+		} else {
+			_ = os.RemoveAll(path)
+		}
 	}
 
 	db, err := leveldb.OpenFile(path, &opt.Options{
